@@ -668,10 +668,10 @@ def modularity_finetune_dir(W, ci=None, gamma=1, seed=None):
                 mb = np.argmax(dq)  # take only one value
                 # print max_dq,mb
 
-                knm_o[:, mb] += W[u, :].T  # change node-to-module out-degrees
-                knm_o[:, ma] -= W[u, :].T
-                knm_i[:, mb] += W[:, u]  # change node-to-module in-degrees
-                knm_i[:, ma] -= W[:, u]
+                knm_o[:, mb] += W[:, u]  # change node-to-module out-degrees
+                knm_o[:, ma] -= W[:, u]
+                knm_i[:, mb] += W[u, :].T  # change node-to-module in-degrees
+                knm_i[:, ma] -= W[u, :].T
                 km_o[mb] += k_o[u]  # change module out-degrees
                 km_o[ma] -= k_o[u]
                 km_i[mb] += k_i[u]  # change module in-degrees
